@@ -19,11 +19,16 @@ type CodeWriter struct {
 	// literalRanges are the byte ranges of the output that hold the text of
 	// multi-line literals; post-processing must leave them untouched
 	literalRanges [][2]int
+
+	// semiOmitted is true while the last thing written is a statement whose
+	// optional semicolon was left out (WriteSemicolons == false)
+	semiOmitted bool
 }
 
 // WriteString writes a string to the buffer
 func (cw *CodeWriter) WriteString(s string) {
 	cw.flushPending()
+	cw.semiOmitted = false
 	cw.Builder.WriteString(s)
 	if cw.Mapper == nil {
 		return
@@ -34,6 +39,7 @@ func (cw *CodeWriter) WriteString(s string) {
 // WriteRune writes a rune to the buffer
 func (cw *CodeWriter) WriteRune(r rune) {
 	cw.flushPending()
+	cw.semiOmitted = false
 	cw.Builder.WriteRune(r)
 	if cw.Mapper == nil {
 		return
@@ -66,6 +72,23 @@ func (cw *CodeWriter) WriteSemi() {
 	}
 	if cw.WriteSemicolons {
 		cw.WriteRune(';')
+		return
+	}
+	cw.semiOmitted = true
+}
+
+// WriteOmittedSemi writes the semicolon that WriteSemi left out, if the
+// statement it belongs to is still the last thing written. Printers call it
+// where the omission would change the meaning of the code. The semicolon goes
+// directly after the statement, before any pending line break.
+func (cw *CodeWriter) WriteOmittedSemi() {
+	if !cw.semiOmitted {
+		return
+	}
+	cw.semiOmitted = false
+	cw.Builder.WriteRune(';')
+	if cw.Mapper != nil {
+		cw.Mapper.AdvanceColumn(1)
 	}
 }
 
